@@ -5,13 +5,14 @@ import os
 
 from vlib.report import Report, Finding, ROOT
 from vlib import prop as P
+from vlib import hooks
 
 HELPER = os.path.join(ROOT, 'bounded', 'c20_roundtrip.py')
 
 
 def run(tier, seed):
   rep = Report('C20', tier, seed, 'proof')
-  P.vc_part(rep, 'C20', concrete_hooks=HOOKS)
+  P.vc_part(rep, 'C20', concrete_hooks=hooks.HOOKS)
   # exhaustive part: the finite domain of the quantifier, enumerated completely on the real code
   rc, out, err = P.run_child(HELPER, [])
   try:
@@ -41,15 +42,3 @@ def run(tier, seed):
   return rep.finish()
 
 
-def _concrete(f):
-  """Replay: search the finite domain for a concrete witness of the failed clause."""
-  rc, out, err = P.run_child(HELPER, ['--contracts'])
-  try:
-    res = json.loads(out.strip().splitlines()[-1])
-  except Exception:
-    return None
-  return res['failures'][0] if res['failures'] else None
-
-
-HOOKS = {('malt.core.converter.ConversionOptions.' + m): _concrete
-         for m in ('__init__', 'as_tuple', '__eq__', '__hash__', 'uses', 'call_options')}
